@@ -1,0 +1,27 @@
+//go:build verif
+
+// Contracts for govc (/verif): C25, assumed contracts of the key-derivation callees of common.(*Transaction).AddOutputWithType.
+// Comment-only file. None of these functions writes memory that existed before the call; those that can panic say on what.
+
+package crypto
+
+//@ -- NewKeyFromSeed: edwards25519 SetUniformBytes fails (panic) exactly when the seed is not 64 bytes long; the result is a reduced scalar.
+//@ assume func NewKeyFromSeed(seed)
+//@   panics when len(seed) != 64
+//@   modifies nothing
+//@   ensures CanonicalScalarKey(result)
+
+//@ -- DeriveGhostPublicKey(r, A, B, i) = B + Hs(r*A, i)*G: panics via KeyMultPubPriv(A, r) and on an undecodable B.
+//@ assume func DeriveGhostPublicKey(r, A, B, outputIndex)
+//@   requires r != nil && A != nil && B != nil
+//@   panics when !ValidPoint(*A) || !CanonicalScalarKey(*r) || !ValidPoint(*B)
+//@   modifies nothing
+//@   fresh
+//@   ensures result != nil
+
+//@ assume func DeriveGhostPublicKeyForInternalVanish(r, A, B, outputIndex)
+//@   requires r != nil && A != nil && B != nil
+//@   panics when !ValidPoint(*A) || !CanonicalScalarKey(*r) || !ValidPoint(*B)
+//@   modifies nothing
+//@   fresh
+//@   ensures result != nil
